@@ -161,8 +161,28 @@ class Path:
     # -- obligations
     def oblige(self, name, formula, kind="post", detail="", assume_after=True):
         """Proof obligation under the current path condition: discharged iff pc ∧ ¬formula is unsat.
-        Afterwards the formula is assumed (so one defect is reported once per path)."""
+        Afterwards the formula is assumed (so one defect is reported once per path).
+        A conjunction is discharged conjunct by conjunct (smaller queries; z3 5.1 was seen answering `sat` for a
+        conjunction of two individually entailed formulas over recursive functions)."""
         import time
+        if not isinstance(formula, bool):
+            fs = z3.simplify(formula)
+            if z3.is_and(fs) and fs.num_args() > 1 and not getattr(self, "_splitting", False):
+                self._splitting = True
+                try:
+                    obs = [self.oblige(name, c, kind, detail, assume_after=False) for c in fs.children()]
+                finally:
+                    self._splitting = False
+                for o in obs[1:]:
+                    self.obligations.remove(o)
+                first = obs[0]
+                worst = next((o for o in obs if o.status == "sat"), None) or next((o for o in obs if o.status == "unknown"), None)
+                if worst is not None:
+                    first.status, first.model, first.reason, first.backend = worst.status, worst.model, worst.reason, worst.backend
+                first.time = sum(o.time for o in obs)
+                if first.status != "unsat" and assume_after:
+                    self.assume(fs)
+                return first
         ob = Obligation(name, kind)
         ob.detail = detail
         ob.pc_size = len(self.pc)
